@@ -11,8 +11,8 @@ JOBS = 12
 RULE = ("Hypothesis-generated small instances (<= 8 assertions, history <= 8) in the integer-free logics (propositional, UF, "
         "LRA, RDL, arrays and combinations), each run under the default configuration and under 2 (quick) / 5 (thorough) other "
         "generated configurations (engines lookahead/picky/ghost, :incremental false + SatELite knobs, tracking options, "
-        "restart/ccmin/random settings); LRA instances biased to degenerate systems (homogeneous rows, zero bounds, duplicated and "
-        "dependent rows). An instance qualifies only if the default configuration answers every check-sat in < 1 s and z3 and "
+        "restart/ccmin/random settings); a quarter of the instances in UF/array + real-arithmetic logics get top-level equalities that define a term through a term containing it (x = a[x]+1, f(x) = g(f(x))+1); LRA instances biased to degenerate systems (homogeneous rows, zero bounds, duplicated and "
+        "dependent rows). An instance qualifies only if the default engine answers every check-sat in < 1 s (under the plain configuration, or - when that one is slow - under another generated configuration or a tracking option; the plain configuration is then judged too) and z3 and "
         "cvc5 each decide every active set in < 1 s. Oracle (the property's own wording): a configuration that has not finished "
         "after max(T, 200 x default time), T = 12 s quick / 60 s thorough, is re-run twice; three time-outs = violation. "
         "Non-trivial = qualifying instance finished under a non-default engine or with push/pop; distinct by (script, options).")
@@ -43,6 +43,53 @@ def degenerate_lra(rnd, sig):
     return out
 
 
+def selfref(rnd, script, L, sig):
+    """Top-level equalities in which a term is defined through a term that contains it (x = a[x] + 1, f(x) = g(f(x)) + 1)
+    and the containing term occurs in further equalities: the equality-solving preprocessing must not turn them into a cyclic
+    substitution."""
+    vs = sig.vars.get("Real", [])
+    if len(vs) < 2 or L["dl"] or not (L["uf"] or L["arrays"]):
+        return []
+    x, y = rnd.sample(vs, 2)
+    z = rnd.choice(vs)
+    wrappers = []
+    if L["uf"]:
+        for n in ("sr_f", "sr_g"):
+            d = "(declare-fun %s (Real) Real)" % n
+            if d not in script["decls"]:
+                script["decls"].append(d)
+        wrappers += ["uf", "uf2"]
+    if L["arrays"]:
+        d = "(declare-fun sr_a () (Array Real Real))"
+        if d not in script["decls"]:
+            script["decls"].append(d)
+        wrappers += ["arr"]
+    k = rnd.choice(wrappers)
+    if k == "uf":
+        t, w = x, "(sr_g %s)" % x
+    elif k == "uf2":
+        t = "(sr_f %s)" % x
+        w = "(sr_g %s)" % t
+    else:
+        t, w = x, "(select sr_a %s)" % x
+    c = [gen.real_lit(rnd, rnd.randint(-3, 3)) for _ in range(3)]
+    if rnd.random() < 0.35:
+        # the cycle goes through two definitions: x through a term over y, y through a term over x
+        wx = w.replace(x, "@").replace("@", y) if k != "uf2" else "(sr_g (sr_f %s))" % y
+        ty = y if k != "uf2" else "(sr_f %s)" % y
+        out = ["(= %s (+ %s %s))" % (t, wx, c[0]), "(= %s (+ %s %s))" % (ty, w, c[1])]
+        if rnd.random() < 0.5:
+            out.append("(= (+ %s %s) (+ %s %s))" % (z, y, w, c[2]))
+        rnd.shuffle(out)
+        return out
+    out = ["(= %s (+ %s %s))" % (t, w, c[0])]
+    others = ["(= %s (+ %s %s))" % (w, y, c[1]), "(= (+ %s %s) (+ %s %s))" % (z, y, w, c[2]), "(= %s (+ %s %s))" % (w, x, c[2]),
+              "(= (- %s %s) (+ %s %s))" % (z, y, w, c[1])]
+    out += rnd.sample(others, rnd.randint(1, 3))
+    rnd.shuffle(out)
+    return out
+
+
 def generate(rnd, tier):
     script, sig, tg = gen.gen_script(rnd, "quick", logic_keys=gen.INT_FREE_KEYS, engines=False, tracking=set(), incremental=True,
                                      queries=False, max_hist=8, depth=rnd.randint(1, 2), big=False)
@@ -54,6 +101,13 @@ def generate(rnd, tier):
             lead += 1
         for t in extra:
             script["cmds"].insert(rnd.randint(lead, max(lead, len(script["cmds"]) - 1)), ["assert", t])
+    if rnd.random() < 0.25:
+        extra = selfref(rnd, script, L, sig)
+        lead = 0
+        while lead < len(script["cmds"]) and script["cmds"][lead][0] == "define-fun":
+            lead += 1
+        pos = rnd.randint(lead, max(lead, len(script["cmds"]) - 1))
+        script["cmds"][pos:pos] = [["assert", t] for t in extra]      # one frame: consecutive commands
     script["options"] = []
     has_stack = any(c[0] in ("push", "pop") for c in script["cmds"])
     K = 2 if tier == "quick" else 5
@@ -86,8 +140,28 @@ def check(case, ctx):
     T = 12.0 if ctx.tier == "quick" else 60.0
     classes = ["logic:" + script["lk"]]
     r0, t0 = timed(script, 5.0)
-    if r0.out.timeout or t0 >= 1.0 or r0.out.crashed():
+    plain_slow = False
+    if r0.out.crashed():
         return Result("inconclusive", None, classes + ["not-qualifying:default-slow-or-crash"])
+    if r0.out.timeout or t0 >= 1.0:
+        # the plain configuration is slow: the instance still qualifies if the default engine decides it in well under a
+        # second under another configuration of the space (tracking options change the preprocessing); the plain
+        # configuration is then judged like every other one
+        alts = [o for o in case["configs"] if not any(k in (":pure-lookahead", ":picky", ":ghost-vars") for k, _ in o)]
+        alts += [[[":produce-interpolants", "true"]], [[":produce-proofs", "true"]]]
+        t0 = None
+        for o in alts[:4]:
+            s = dict(script)
+            s["options"] = o
+            ra, ta = timed(s, 3.0)
+            if not ra.out.timeout and not ra.out.crashed() and ta < 1.0 and \
+                    all(ra.answer(i) in ("sat", "unsat") for i, _, _ in gen.check_points(script)):
+                t0 = ta
+                break
+        if t0 is None:
+            return Result("inconclusive", None, classes + ["not-qualifying:default-slow-or-crash"])
+        plain_slow = True
+        classes.append("qualified-by-other-default-engine-configuration")
     for idx, active, _ in gen.check_points(script):
         ta = time.time()
         rr = ref.decide(osmt.ref_decls(script, idx), active, 1000)
@@ -97,7 +171,7 @@ def check(case, ctx):
     nt_key = None
     evals = 1
     limit = max(T, 200 * t0)
-    for opts in case["configs"]:
+    for opts in ([[]] if plain_slow else []) + case["configs"]:
         s = dict(script)
         s["options"] = opts
         eng = "default"
